@@ -502,6 +502,36 @@ func (c *pieceCtx) checkCompleteTransition(rule, key string, cs ssa.CallInstruct
 		}
 	}
 	if eq == nil {
+		// settle(index, hh.Equal(h)): the transition sits in a private helper, under a boolean parameter that is the
+		// outcome of the comparison at the helper's only call site
+		if obj, isFn := f.Object().(*types.Func); isFn && !obj.Exported() && f.Parent() == nil {
+			calls, esc := c.p.callSitesOf(f)
+			if len(esc) == 0 && len(calls) == 1 {
+				if call, okc := calls[0].(*ssa.Call); okc && len(call.Call.Args) == len(f.Params) && relPkg(call.Parent()) == "tor/piece" {
+					for _, g := range guardsOf(in.Block()) {
+						g = g.norm()
+						prm, okp := g.Cond.(*ssa.Parameter)
+						if !okp || !g.Pol {
+							continue
+						}
+						for i, pp := range f.Params {
+							if pp != prm {
+								continue
+							}
+							if cc, okcc := call.Call.Args[i].(*ssa.Call); okcc {
+								if cal := cc.Call.StaticCallee(); cal != nil && cal.Name() == "Equal" && relPkg(cal) == "hash" {
+									eq = cc
+									f = call.Parent()
+									r.Fn(f)
+								}
+							}
+						}
+					}
+				}
+			}
+		}
+	}
+	if eq == nil {
 		r.Fail(rule, key, cs.Pos(), "the transition to complete is not dominated by a successful hash comparison: unverified data becomes readable")
 		return
 	}
@@ -584,10 +614,28 @@ func (c *pieceCtx) checkCompleteTransition(rule, key string, cs ssa.CallInstruct
 	}
 	// busy transition precedes the hashing on every path: some setState(0,busy) dominates the Sum call
 	domBusy := false
-	allInstrs(f, func(i2 ssa.Instruction) {
+	toBusy := func(i2 ssa.Instruction) bool {
 		if cc := pieceMethodCall(i2, "setState"); cc != nil {
-			if to, ok := constInt(cc.Call.Args[2]); ok && to == stBusy && instrDominates(cc, sum) {
-				domBusy = true
+			if to, ok := constInt(cc.Call.Args[2]); ok && to == stBusy {
+				return true
+			}
+		}
+		return false
+	}
+	allInstrs(f, func(i2 ssa.Instruction) {
+		if toBusy(i2) && instrDominates(i2, sum) {
+			domBusy = true
+			return
+		}
+		// markBusy(index): a function of the package that makes the transition on every path
+		if cc, ok := i2.(*ssa.Call); ok && !cc.Call.IsInvoke() && instrDominates(i2, sum) {
+			if h := cc.Call.StaticCallee(); h != nil && h.Blocks != nil && relPkg(h) == "tor/piece" && h != f {
+				isRet := func(in ssa.Instruction) bool { _, ok := in.(*ssa.Return); return ok }
+				if anyInstr(h, toBusy) != nil {
+					if _, reached := pathsMissingAt(h.Blocks[0], 0, -1, isRet, toBusy, nil, nil); reached == 0 {
+						domBusy = true
+					}
+				}
 			}
 		}
 	})
